@@ -36,9 +36,9 @@ CHECKS = {
     ),
     "C11": dict(
         category="proof",
-        text="(1) The REAL expression_t::collect_possible_writes / get_symbols / changes_any_variable / changes_variable (and the read-side twins) are executed one level deep on symbolic nodes whose children carry arbitrary ghost symbol sets: the result is exactly input U W(e), with W from the statement (15 assignment/increment kinds contribute the target's lvalue symbols; calls contribute the callee's summary and the arguments at non-const reference positions). (2) Each of the 19 `changes_any_variable()` gates of typechecker.cpp (guard, invariant, sync, probability, initialisers, IO/priority indices, LSC labels, instantiation argument, assert, quantifier bodies, property, checkPredicate, checkMonitoredExpr) is sliced as its real if-chain / function / clause and executed with the gated expression's W != {} ghost: an error must be recorded. Unbounded in tree depth (induction step).",
+        text="(1) The REAL expression_t::collect_possible_writes / get_symbols / changes_any_variable / changes_variable (and the read-side twins) are executed one level deep on symbolic nodes whose children carry arbitrary ghost symbol sets: the result is exactly input U W(e), with W from the statement (15 assignment/increment kinds contribute the target's lvalue symbols; calls contribute the callee's summary and the arguments at non-const reference positions). (2) Each of the 19 `changes_any_variable()` gates of typechecker.cpp (guard, invariant, sync, probability, initialisers, IO/priority indices, LSC labels, instantiation argument, assert, quantifier bodies, property, checkPredicate, checkMonitoredExpr) is sliced as its real if-chain / function / clause and executed with the gated expression's W != {} ghost: an error must be recorded. (3) The REAL tail of TypeChecker::visitFunction: function_t::changes / depends are exactly what the body may write / read minus the function's own locals and parameters (arbitrary sets, arbitrary 'declared in the function's frame' ghost). Unbounded in tree depth (induction step).",
         design_ref="DESIGN.md section 4, C11",
-        note="Trusted: bit-mask model of std::set<symbol_t> (8 symbols), flat type abstraction, stub TypeChecker environment (checkExpression / isCompileTimeComputable by ghost), induction meta-step. NOT under contract: TypeChecker::visitFunction's computation of function_t::changes and the statement visitors behind it (virtual dispatch), and that every context of the statement reaches a gate (traversal). Array sizes and range bounds have no side-effect gate of their own; they are protected only through the compile-time-computability check (C13).",
+        note="Trusted: bit-mask model of std::set<symbol_t> (8 symbols), flat type abstraction, stub TypeChecker environment (checkExpression / isCompileTimeComputable by ghost), induction meta-step. NOT under contract: the virtual dispatch that ties the statement visitors together, and that every context of the statement reaches a gate (traversal). Array sizes and range bounds have no side-effect gate of their own; they are protected only through the compile-time-computability check (C13).",
         technique="one-level induction steps with ghost set summaries + per-gate slices of the real if-chains, assume/call/assert harnesses in CBMC; native replay through parse_XTA",
     ),
     "C12": dict(
@@ -50,9 +50,9 @@ CHECKS = {
     ),
     "C13": dict(
         category="proof",
-        text="The REAL TypeChecker::isCompileTimeComputable (result <=> every symbol the expression may read is a function or in the computable set, and no random draw), the REAL CompileTimeComputableValues members (a variable enters the set iff its type is constant; an instance parameter iff const, non-reference, non-double), the REAL checkType RANGE branch (array sizes, integer ranges, scalar-set sizes: a non-computable bound is an error, computable integer bounds are accepted), the REAL initialiser chain of visitVariable, the REAL instantiation-argument rules (value / const-reference parameter needs a computable argument) and the REAL visitProcess (a free parameter in the restricted set is an error) are executed on symbolic inputs with the callee contracts as ghosts. Builder side: the REAL StatementBuilder::collectDependencies worklist is checked to return a set closed under `variable -> reads of its initialiser` (any chain length) - bounded stand-in over a universe of 4 symbols.",
+        text="The REAL TypeChecker::isCompileTimeComputable (result <=> every symbol the expression may read is a function or in the computable set, and no random draw), the REAL CompileTimeComputableValues members (a variable enters the set iff its type is constant; an instance parameter iff const, non-reference, non-double), the REAL checkType RANGE branch (array sizes, integer ranges, scalar-set sizes: a non-computable bound is an error, computable integer bounds are accepted), the REAL initialiser chain of visitVariable, the REAL instantiation-argument rules (value / const-reference parameter needs a computable argument) and the REAL visitProcess (a free parameter in the restricted set is an error) are executed on symbolic inputs with the callee contracts as ghosts. Builder side: the REAL StatementBuilder::collectDependencies worklist is checked to return a set closed under `variable -> reads of its initialiser` (any chain length) - bounded stand-in over a universe of 4 symbols. Bounded as well: the REAL checkType as a whole with its real recursion over real type_t trees of 8 shapes (records of arrays, arrays of records, ranges in fields, ...): every non-computable size/bound anywhere in the tree is an error.",
         design_ref="DESIGN.md section 4, C13",
-        note="Trusted: flat type abstraction, bit-mask std::set<symbol_t>, stub TypeChecker environment; collect_possible_reads by contract (its one-level proof is C11's c11_collect_reads). Bounded: collectDependencies (4 symbols). Not under contract: checkType's recursion reaching every RANGE of a used type; isDefaultInt.",
+        note="Trusted: flat type abstraction, bit-mask std::set<symbol_t>, stub TypeChecker environment; collect_possible_reads by contract (its one-level proof is C11's c11_collect_reads). Bounded: collectDependencies (4 symbols), checkType's recursion (8 tree shapes of height <= 3; the one-level step assumes the recursion's contract). Not under contract: isDefaultInt.",
         technique="sliced real functions / switch clause / if-chains executed on symbolic inputs with ghost contracts in CBMC (assume/call/assert); one bounded unwinding stand-in; native replay through parse_XTA",
     ),
     "C19": dict(
@@ -73,12 +73,12 @@ CHECKS = {
         category="proof",
         text="Kernel of the statement: per-call re-initialisation. The REAL parser globals and utap_lex (the %code block of parser.y), the REAL setStartToken, the REAL static entries parse_XTA(builder, newxta, part, xpath) / parseProperty(builder, xpath), the REAL PositionTracker::setPath and the REAL enums xta_part_t / syntax_t are executed with EVERY parser/lexer global holding an arbitrary value (= any history): the state the grammar is entered with (syntax mode, pending start token, current builder, tracker line/offset/path) is a function of the arguments only; setStartToken is total over xta_part_t x bool (2-run equality from two arbitrary histories), always leaves a token that the grammar's start production accepts (token list and start production generated from parser.y on every run), and distinct parts select distinct tokens; utap_lex delivers the pending start token exactly once; the entry's result is the grammar's verdict; the public wrappers are checked textually to add only buffer management. The one observable history dependence inside the kernel - the 32-bit global position counter wrapping - is stated as an obligation, fails exactly in the recorded class and is reported as known finding C15-KF1 (natively replayed by seeding UTAP::tracker.position).",
         design_ref="DESIGN.md section 4, C15",
-        note="Kernel only: the whole-history statement (each call's full result equals the fresh-process result) is NOT decided. Outside the kernel and stated as assumptions: flex state (YY_START, buffer stack), bison's internal state, exceptions thrown from inside utap_parse, rootTransId/types (not re-initialised by the prologues; the grammar writes them before use), errno. utap_parse and lexer_flex are stubs.",
+        note="Kernel only: the whole-history statement (each call's full result equals the fresh-process result) is NOT decided. Outside the kernel and stated as assumptions: flex's buffer stack, bison's internal state, exceptions thrown from inside utap_parse, rootTransId (not re-initialised by the prologues; the grammar writes it before use), errno. Under contract since the seeded rounds: the global array-dimension counter `types` (rule actions of ArrayDecl/ArrayDecl2 parsed out of parser.y, 2-run equality) and flex's start condition (the BEGIN(...) rule actions of lexer.l extracted on every run, as a ghost: a scan that ends anywhere, incl. inside a comment, leaves INITIAL for the next parse through either entry). utap_parse and lexer_flex are stubs.",
         technique="sliced real prologue functions executed on arbitrary global state (havocked history) in CBMC, assume/call/assert harnesses, 2-run equality for history independence; generated token/start-production tables; native replay with a seeded position counter",
     ),
     "C02": dict(
         category="proof",
-        text="Kernel of the statement. (i) The REAL ExpressionBuilder::ExpressionFragments and twenty REAL expression callbacks of ExpressionBuilder.cpp (expr_binary with isMITL/toMITLAtom, expr_assignment, expr_unary, expr_inline_if, expr_comma, expr_array, the four ++/--, expr_builtin_function1/2/3, expr_nary, expr_ternary, expr_nat/true/false/double/deadlock, make_constant) run over the REAL node factories of expression.cpp on a fragment stack of symbolic depth <= 6 with arbitrary operands: each pops exactly its operands, pushes one node of the prescribed kind whose children are the operands in source order, carries the builder's position, and leaves every fragment below untouched (frame); unary plus is the identity, unary minus becomes UNARY_MINUS, integer and floating literals are stored unchanged. (iii) Tables generated from parser.y on every run - the %left/%right declarations, the `Expression TOKEN Expression -> expr_binary(KIND)` productions, UnaryOp/AssignOp and the imply production - are decided against the UPPAAL operator table (contracts/C02/operator_table.json): relative precedence of every operator pair, associativity, node kind per token, aliases and/or/xor/not build the same kinds, assignments share the loosest right-associative level, inline-if sits between, imply is (not a) or b.",
+        text="Kernel of the statement. (i) The REAL ExpressionBuilder::ExpressionFragments and twenty REAL expression callbacks of ExpressionBuilder.cpp (expr_binary with isMITL/toMITLAtom, expr_assignment, expr_unary, expr_inline_if, expr_comma, expr_array, the four ++/--, expr_builtin_function1/2/3, expr_nary, expr_ternary, expr_nat/true/false/double/deadlock, make_constant) run over the REAL node factories of expression.cpp on a fragment stack of symbolic depth <= 6 with arbitrary operands: each pops exactly its operands, pushes one node of the prescribed kind whose children are the operands in source order, carries the builder's position, and leaves every fragment below untouched (frame); unary plus is the identity, unary minus becomes UNARY_MINUS, integer and floating literals are stored unchanged. (iii) Tables generated from parser.y on every run - the %left/%right declarations, the `Expression TOKEN Expression -> expr_binary(KIND)` productions, UnaryOp/AssignOp and the imply production - are decided against the UPPAAL operator table (contracts/C02/operator_table.json): relative precedence of every operator pair, associativity, node kind per token, aliases and/or/xor/not build the same kinds, assignments share the loosest right-associative level, inline-if sits between, imply is (not a) or b; production-level precedence (%prec on rules): the else-branch of an inline-if extends over a following assignment.",
         design_ref="DESIGN.md section 4, C02",
         note="Kernel only. NOT decided: that bison's LALR automaton realises the declared precedences (bison trusted; checked natively by the replay probe for all 23x23 operator pairs, which is a test, not a proof); the scanner's spelling->token map; literal conversion in lexer.l (atoi/snprintf/atof); identifier binding (C07); callbacks with type-dependent behaviour (expr_call_end, expr_dot, quantifiers). Stack depth <= 6, n-ary arity <= 6.",
         technique="sliced real callbacks executed on a symbolic fragment stack in CBMC with stack-effect/frame contracts as assume/call/assert harnesses; finite table identities over tables generated from parser.y; native replay through parse_XTA",
